@@ -215,7 +215,7 @@ def is_float_typed(v):
 
 def sentinel_dtype(ctx, chk):
     """R03.2: the array that receives the one-ulp sentinels must be floating point (an integer array would truncate them back onto the score)."""
-    from ..terms import App, Const, Sym
+    from ..terms import App, Const, Sym, to_poly
     from ..spec import returns
     from .thr import INV, METHODS
     S = Sym("S", ("param", "array", "sorted", "notnone"))
@@ -246,6 +246,17 @@ def sentinel_dtype(ctx, chk):
             v = v.args[0]
         if selected and not sent:
             chk.hold("R03.2", "sentinel-dtype:" + method, "%d sentinel(s) selected with np.where (result promoted to float64)" % selected)
+            continue
+        margins = []
+        for x in sent:
+            px = to_poly(x) if not (isinstance(x, App) and x.fn.startswith("nextafter")) else None
+            if px is not None and not px.is_const() and px.t.get((), 0) != 0 and all(
+                    m == () or (len(m) == 1 and m[0][1] == 1 and isinstance(m[0][0], App) and m[0][0].fn == "getitem") for m in px.t):
+                margins.append(x)
+        if margins:
+            chk.violation("R03.2", INV, "sentinel-margin:" + method, "the out-of-range threshold is an extreme score plus a FIXED margin: %s" % show(margins[0], 100),
+                          "the neighbouring float nextafter(score, +-inf): a fixed margin is absorbed by rounding for scores of large magnitude (the threshold lands ON the score) "
+                          "and is not the closest outside value for small ones", ctx.where(INV))
             continue
         if not sent or not all(isinstance(x, App) and x.fn.startswith("nextafter") for x in sent):
             chk.unknown("R03.2", "inversion core (%s): sentinel stores not recognised" % method)
